@@ -59,9 +59,14 @@ def io_seq(f, start=None):
                     g = f.unit.funcs.get(cn or '')
                     if g is not None and g is not f and g.entry is not None and len(g.blocks) <= 12:
                         for b2, i2, l2, c2 in g.calls(('fread', 'fwrite')):
-                            if len(c2[2]) >= 4 and nocast(c2[2][0])[0] == 'p':
+                            if len(c2[2]) < 4:
+                                continue
+                            a0 = nocast(c2[2][0])
+                            if a0[0] == 'u' and a0[1] == '&' and nocast(a0[2])[0] == 'p':
+                                a0 = nocast(a0[2])       # the address of a by-value parameter: the argument is the datum
+                            if a0[0] == 'p':
                                 for k, prm in enumerate(g.params):
-                                    if prm['name'] == nocast(c2[2][0])[1] and k < len(n[2]):
+                                    if prm['name'] == a0[1] and k < len(n[2]):
                                         sz, cnt = const_val(c2[2][1]), const_val(c2[2][2])
                                         out.append((callee_name(c2), (sz or 0) * (cnt or 0), nocast(n[2][k]), ln, b))
     return out
